@@ -117,9 +117,11 @@ def W.invert (w : W) (args : List Arg) : Except Err (List Arg) :=
         w.bwd.eval (vals.map Arg.bare)
   | _ => w.bwd.eval args
 
+/-- `world_to_pixel_values`: the results are stripped according to the transform that produced them, the backward one
+(a unit-free forward transform may carry a user-supplied unit-carrying inverse, and the other way round) -/
 def W.worldToPixelValues (w : W) (world : List Rat) : Except Err (List Rat) := do
   let res ← w.invert (addUnitsInput w.bwd.usesQ w.worldU world)
-  removeQuantityOutput w.fwd.usesQ w.pixU res
+  removeQuantityOutput w.bwd.usesQ w.pixU res
 
 def toFrame (a : Arg) (u : U) : Except Err Arg :=
   match a with
@@ -152,6 +154,33 @@ def sanitizePixel (usesQ : Bool) (pixU : List U) (pix : List Arg) : Except Err (
 def W.pixelToWorld (w : W) (pix : List Arg) : Except Err (List Arg) := do
   let p ← sanitizePixel w.fwd.usesQ w.pixU pix
   w.callWithUnits p
+
+/-- a scale-only unit-carrying transform (`Multiply(k * out / in)`, no `Shift`): astropy multiplies and converts nothing, so a
+quantity in the unit `s` comes back in the composite unit `s * out / in` - here: the dimension of `out` with the scale
+`out.scale * s.scale / in.scale`; a quantity of another dimension gives a unit that converts to nothing (refused when the
+result is read in the frame unit) -/
+def evalScaleOnly (k : Rat) (inU outU : U) (a : Arg) : Except Err Arg :=
+  match a with
+  | .qty v s => if s.dim = inU.dim then .ok (.qty (k * v) ⟨outU.dim, outU.scale * s.scale / inU.scale⟩) else .error .valueErr
+  | .bare _ => .error .valueErr
+
+/-- `utils._toindex` on a result: the nearest whole pixel of the *magnitude* -/
+def magnitude (a : Arg) : Rat :=
+  match a with
+  | .qty v _ => v
+  | .bare v => v
+
+/-- `world_to_array_index` through a one-axis scale-only backward transform: `invert(..., with_units=True)` reads the result in
+the input frame's unit before it is rounded -/
+def arrayIndexScaleOnly (k : Rat) (inU outU pixU : U) (a : Arg) : Except Err Int := do
+  let r ← evalScaleOnly k inU outU a
+  let q ← toFrame r pixU
+  pure ((magnitude q + 1 / 2).floor)
+
+/-- the same with the raw result rounded (`with_units=False`): what the conversion is there to prevent -/
+def arrayIndexScaleOnlyRaw (k : Rat) (inU outU : U) (a : Arg) : Except Err Int := do
+  let r ← evalScaleOnly k inU outU a
+  pure ((magnitude r + 1 / 2).floor)
 
 /-- the numeric function of the unit-free twin: declared units replaced by the frames' units -/
 def scaleBy (src dst : List U) (vs : List Rat) : List Rat :=
